@@ -75,11 +75,9 @@ def execute_guarded(check, plan):
 
 
 def _in_child(fn, args):
-    """Run fn(args) in a forked child of this worker and return its result.
-    Every chunk (and every minimisation) therefore starts from the state the
-    parent had right after setup: state that the code under test keeps from
-    one run to the next cannot travel between chunks, and the jobs executed
-    earlier in the same chunk are the complete history of a run."""
+    """Run fn(args) in a forked child of this worker and return its result
+    (used for minimisation, so that hundreds of candidate executions cannot
+    leave state behind in a worker)."""
     import pickle
     r, w = os.pipe()
     pid = os.fork()
@@ -109,8 +107,14 @@ def _in_child(fn, args):
     return val
 
 
+_HISTORY = []   # every job this worker process has executed so far, in order
+
+
 def _worker_chunk(args):
-    return _in_child(_chunk_body, args)
+    # no fork per chunk: in this VM copy-on-write faults of short-lived children cost far more than
+    # the runs themselves.  Instead the worker remembers its complete job history, which is what a
+    # replay needs if a violation depends on state the tree under test carries between runs.
+    return _chunk_body(args)
 
 
 def _chunk_body(args):
@@ -120,9 +124,8 @@ def _chunk_body(args):
            'samples': [], 'violations': [], 'digests': {}, 'harness_errors': [], 'inter': set(),
            'nontrivial': 0, 'extra': {}}
     gate = set(gate_jobs)
-    done = []
     for job in jobs:
-        done.append(job)
+        _HISTORY.append(job)
         try:
             plan = _plan_for(check, job, tier, base_seed)
             res = execute_guarded(check, plan)
@@ -156,7 +159,7 @@ def _chunk_body(args):
             v0 = res.violations[0]
             if v0.key not in keys:
                 out['violations'].append({'job': job, 'plan': plan, 'violation': v0.to_json(),
-                                          'digest': res.digest, 'prelude': list(done[:-1])})
+                                          'digest': res.digest, 'prelude': list(_HISTORY[:-1])})
     out['sigs'] = sorted(out['sigs'])
     out['inter'] = sorted(out['inter'])
     return out
@@ -393,7 +396,7 @@ def run_check(pid, tier, base_seed, nproc=None, max_runs=None, write_evidence=Tr
                                          'prelude': {'jobs': v['prelude'], 'tier': tier, 'base_seed': base_seed}})
                     rc, outp = _confirm(path, os.environ.get('PYTHONHASHSEED', '0'))
                     if rc == 1:
-                        notes.append('violation %s reproduces only after the %d runs that preceded it in its worker '
+                        notes.append('violation %s reproduces only after the %d runs that preceded it in its worker process '
                                      '(state carried between runs by the tree under test); replay includes them'
                                      % (key, len(v['prelude'])))
                 if rc != 1:
